@@ -23,10 +23,12 @@ import base64
 import binascii
 from dataclasses import dataclass
 import datetime
+import html
 import json
 from typing import Any
 
 from flask import Blueprint, url_for
+from markupsafe import Markup
 
 from dashlive.utils.objects import flatten_iterable
 from dashlive.utils.date_time import (
@@ -200,7 +202,9 @@ def xmlSafe(value: str | None) -> str:
     """
     if value is None:
         return ""
-    return value.replace('&', '&amp;')
+    # escape all of & < > " ' and mark the result as already escaped, so that
+    # templates with auto-escaping enabled do not escape it a second time
+    return Markup(html.escape(value, quote=True))
 
 @custom_tags.app_template_filter()
 def sortedAttributes(value):
